@@ -38,6 +38,10 @@ def plan(tier):
                 for J in (1, 2):
                     for d in ('fwd', 'inv'):
                         items.append({'fam': 'dwt2d', 'dir': d, 'wave': w, 'mode': mode, 'shape': list(hw), 'J': J})
+    for mode in ('zero', 'periodization'):
+        for d in ('fwd', 'inv'):
+            items.append({'fam': 'dwt2d', 'dir': d, 'wave': ['db2', 'db3'], 'mode': mode, 'shape': [6, 7], 'J': 2})
+            items.append({'fam': 'dwt2d', 'dir': d, 'wave': ['db4', 'sym4'], 'mode': mode, 'shape': [8, 8], 'J': 1})
     for w in ['db2', 'bior2.2']:
         items.append({'fam': 'swt', 'dir': 'fwd', 'wave': w, 'mode': 'periodic', 'shape': [8, 8], 'J': 2})
     for (b, qs) in ([('near_sym_a', 'qshift_a'), ('antonini', 'qshift_c'), ('near_sym_b', 'qshift_d')] if q else dtc.PAIRS[::2]):
@@ -80,7 +84,15 @@ def _make(item, dt):
             m = DWT1DForward(J=item['J'], wave=item['wave'], mode=item['mode']) if item['dir'] == 'fwd' else DWT1DInverse(wave=item['wave'], mode=item['mode'])
         elif fam == 'dwt2d':
             from pytorch_wavelets import DWTForward, DWTInverse
-            m = DWTForward(J=item['J'], wave=item['wave'], mode=item['mode']) if item['dir'] == 'fwd' else DWTInverse(wave=item['wave'], mode=item['mode'])
+            wv = item['wave']
+            if isinstance(wv, (list, tuple)):          # per-axis wavelets in the 4-tuple form
+                import pywt
+                a_, b_ = pywt.Wavelet(wv[0]), pywt.Wavelet(wv[1])
+                wf = (a_.dec_lo, a_.dec_hi, b_.dec_lo, b_.dec_hi)
+                wi = (a_.rec_lo, a_.rec_hi, b_.rec_lo, b_.rec_hi)
+            else:
+                wf = wi = wv
+            m = DWTForward(J=item['J'], wave=wf, mode=item['mode']) if item['dir'] == 'fwd' else DWTInverse(wave=wi, mode=item['mode'])
         elif fam == 'swt':
             from pytorch_wavelets.dwt.transform2d import SWTForward
             m = SWTForward(J=item['J'], wave=item['wave'], mode=item['mode'])
